@@ -12,7 +12,7 @@ SPEC = {
          "eval": "fun c => let '(i, raw, d, t, dd, r) := c in check_case i raw d t dd r", "per_shard": 250},
     ],
     "classes": {1: "get-executes-mutation"},
-    "n_quick": 200, "n_thorough": 5000,
+    "n_quick": 200, "n_thorough": 800,
     "level": "proof",
     "what_violation": "a mutation sent over HTTP GET is executed where the executor's operation selection answers with an error / GET decoding or handling differs from the model",
     "rule": ("generated RAW GET query strings: documents with a single named or anonymous mutation or query, 2-4 named query and mutation operations, "
